@@ -36,6 +36,7 @@ MIN_REACH = {
     "merge_twice": {"quick": 50, "thorough": 800},
     "merges_adding_fractional_labels_to_integer_axis": {"quick": 4, "thorough": 60},
     "merges_adding_longer_labels_to_a_string_axis": {"quick": 3, "thorough": 50},
+    "merges_widening_a_narrow_stored_axis": {"quick": 6, "thorough": 100},
     "listings_checked": {"quick": 500, "thorough": 8000},
     "harvester_name_checks": {"quick": 50, "thorough": 800},
 }
@@ -204,6 +205,23 @@ def run_case(ctx, case):
                     part2 = sub_f.isel({split: slice(1, None)})
                     sub = sub_f
                     ctx.count("merges_adding_fractional_labels_to_integer_axis")
+                if case["coordt"][split] in ("int", "float") and case["dseed"] % 3 == 1:
+                    # the first save stores the axis in a NARROW type (float32 / int32, as files written by other tools
+                    # or to save space do), the second adds labels only the wide type can hold (0.1, 2**40)
+                    nlab = sub.sizes[split]
+                    if case["coordt"][split] == "float":
+                        c1 = (np.arange(nlab) * 0.5).astype("float32")
+                        c2 = (np.arange(nlab) * 0.5).astype("float64")
+                        c2[1:] += 0.1
+                    else:
+                        c1 = (np.arange(nlab) * 3).astype("int32")
+                        c2 = (np.arange(nlab) * 3).astype("int64")
+                        c2[1:] += 2 ** 40
+                    part1 = sub.assign_coords({split: c1}).isel({split: slice(0, 1)})
+                    sub_f = sub.assign_coords({split: c2})
+                    part2 = sub_f.isel({split: slice(1, None)})
+                    sub = sub_f
+                    ctx.count("merges_widening_a_narrow_stored_axis")
                 if case["coordt"][split] == "str" and case["dseed"] % 3 == 0:
                     # ... or short labels first and longer ones with the second save
                     newc = np.array([str(v) if i == 0 else str(v) + "_longer" for i, v in enumerate(sub[split].values.tolist())])
